@@ -199,9 +199,13 @@ impl SlidingCounterState {
         let elapsed = now.duration_since(self.bucket_start);
 
         if elapsed >= self.bucket_duration {
-            // How many full buckets have passed?
-            let buckets_passed =
-                (elapsed.as_secs_f64() / self.bucket_duration.as_secs_f64()) as u32;
+            // How many full buckets have passed? Integer arithmetic: the f64
+            // quotient of exactly two periods can come out just below 2.0
+            // (e.g. for a 559 ms period), which kept a stale previous bucket.
+            let buckets_passed = elapsed
+                .as_nanos()
+                .checked_div(self.bucket_duration.as_nanos())
+                .unwrap_or(u128::MAX);
 
             if buckets_passed >= 2 {
                 // More than one full bucket passed - previous is now empty
